@@ -255,15 +255,18 @@ CheckCache(m, e, o, afterAppend) ==
                      [n |-> o.cache.n, sz |-> o.cache.sz, ev |-> o.cache.sev, res |-> o.cache.res])
        ELSE m
 
-\* Known finding F5 (see known_findings.json): a live entry that was journalled AFTER the chunk the eviction
-\* boundary belongs to had been closed nevertheless compares <= the boundary (possible only after a truncation
-\* followed by an append with a lower term), so it is evictable although it is not in a synced closed chunk.
+\* Known finding F5 (see known_findings.json): a live entry that was journalled AFTER some chunk had been
+\* closed with closing-time last B nevertheless compares <= B (possible only after a truncation followed by a
+\* re-append with the same or a lower term).  B becomes the eviction boundary once that chunk is synced, so
+\* the entry is evictable although it is not in a synced closed chunk.  The boundary in force when the entry
+\* was evicted need not be the one at observation time (the worker moves it), hence every closing-time last
+\* is considered, not only `sev`.
 F5Class(m, sev) ==
-  LET hs == {k \in 1..Len(m.heads) : m.heads[k].st.l = sev} IN
-  /\ sev # None /\ hs # {} /\ m.sizeok
-  /\ LET cstar == SetMin({m.heads[k].ck : k \in hs}) IN
-     \E j \in 1..Len(m.loc) : /\ m.loc[j].off >= cstar /\ HasIdx(m.ref, m.loc[j].i)
-                              /\ Le(IdAt(m.ref, m.loc[j].i), sev)
+  /\ m.sizeok
+  /\ \E k \in 1..Len(m.heads) : \E j \in 1..Len(m.loc) :
+        /\ m.heads[k].st.l # None
+        /\ m.loc[j].off >= m.heads[k].ck /\ HasIdx(m.ref, m.loc[j].i)
+        /\ Le(IdAt(m.ref, m.loc[j].i), m.heads[k].st.l)
 
 \* which property a wrong read / state speaks about, by context
 ReadProp(m) ==
@@ -850,7 +853,9 @@ ProbeStep(m0, e) ==
           THEN \* C07: every live entry readable right after a write on the recovered store, whatever the cache limits
                ViolKeep(m, IF m.cfg.ci >= 0 \/ m.cfg.cc >= 0 THEN "C07" ELSE "C05", "read_after_recovery_and_write", e,
                         [got |-> ObsView(e.cont.obs1), esr |-> e.cont.obs1.esr, want |-> want, img |-> e.img,
-                         f5 |-> F5Class(m, e.cont.obs1.cache.sev)])
+                         \* F5 on the recovered store: the entry just appended (journalled after everything
+                         \* else) compares <= the boundary recovery left behind (only after a truncation)
+                         f5 |-> F5Class(m, e.cont.obs1.cache.sev) \/ Le(<<ent[1], ent[2]>>, e.cont.obs1.cache.sev)])
           ELSE IF e.cont.obs2.esr # "ok" \/ ObsView(e.cont.obs2) # want
           THEN ViolKeep(m, "C05", "recovered_store_inconsistent_after_continuation", e,
                         [got |-> ObsView(e.cont.obs2), want |-> want, img |-> e.img])
